@@ -1,6 +1,7 @@
 """Generates the CrossHair condition functions for C11: one per (N users, ordering of the running cores[,
 ordering of the totals]).  The orderings r_p0 <= r_p1 <= ... (and t_p0 <= t_p1 <= ..., t = running + ready)
-over all permutations cover every input (ties included); they shard the path space across processes."""
+over all permutations, taken lexicographically with the user index as tie-breaker (strict `<` where the indices
+descend), partition the inputs: every input, ties included, is in exactly one shard."""
 import itertools
 
 TEMPLATE = '''
@@ -44,10 +45,16 @@ def source(ns, abits, nmax):
             qs = [f'q{i}' for i in range(n)]
             args = ', '.join(f'{r}: int, {q}: int' for r, q in zip(rs, qs))
             rng = ' and '.join(f'0 <= {x} < {cap}' for x in rs + qs)
-            order = ' and '.join(f'r{perm[i]} <= r{perm[i + 1]}' for i in range(n - 1)) or 'True'
+            # lexicographic order on (value, user index): `<=` when the indices ascend, `<` when they descend, so the
+            # shards PARTITION the input space (every input, ties included, belongs to exactly one shard)
+            def rel(a, b):
+                return '<=' if a < b else '<'
+
+            order = ' and '.join(f'r{perm[i]} {rel(perm[i], perm[i + 1])} r{perm[i + 1]}' for i in range(n - 1)) or 'True'
             if tperm is not None:
                 order += ' and ' + ' and '.join(
-                    f'r{tperm[i]} + q{tperm[i]} <= r{tperm[i + 1]} + q{tperm[i + 1]}' for i in range(n - 1))
+                    f'r{tperm[i]} + q{tperm[i]} {rel(tperm[i], tperm[i + 1])} r{tperm[i + 1]} + q{tperm[i + 1]}'
+                    for i in range(n - 1))
             out.append(TEMPLATE.format(N=n, S=s, ARGS=args, RANGE=rng, ORDER=order, CAP=cap,
                                        RS=', '.join(rs), QS=', '.join(qs)))
             names.append((n, s, (perm, tperm)))
